@@ -5,7 +5,7 @@ def V(variant, shards, scale=1.0, env=None, args=()):
 
 ALG = ["algebra/main.cpp"] + ["algebra/c%s.cpp" % n for n in ("01", "02", "03", "06", "11", "12", "13")]
 
-SOLVER = ["solver/main.cpp", "solver/c04.cpp", "solver/c17.cpp", "solver/stubs.cpp"]
+SOLVER = ["solver/main.cpp", "solver/c04.cpp", "solver/c05.cpp", "solver/c10.cpp", "solver/c17.cpp"]
 
 PROPS = {
     "C01": dict(
@@ -115,5 +115,30 @@ PROPS = {
         floors=dict(quick={"nx.exhaustive_2_130": 129, "nx_minus_1.other": 200, "grid.linear": 300, "grid.log": 300, "grid.user": 300, "lookup.inside": 200000, "lookup.outside": 5000},
                     thorough={"nx.exhaustive_2_130": 129, "lookup.inside": 5000000}),
         assumptions=["logarithmic grids use a>=1e-10 because the library documents a refusal below that"],
+    ),
+    "C05": dict(
+        harness="h_solver", sources=SOLVER, level="exploration",
+        variants=dict(quick=[V("asan", 8, 0.3), V("opt", 8)], thorough=[V("asan", 8, 0.2), V("opt", 16)]),
+        rule="each case: d cycles 2..6, nx 2..6, nrhos 1..3, grid linear / logarithmic / user supplied with clustered nodes, H0(x,irho) diagonal and different for every x and irho, "
+             "0-3 history operations (evolve without numerics over up to 1e3, evolve with numerics, re-initialise with another start time, move) producing tau=t-t_ini; then: node form at "
+             "every node (+ averaging overload with scale 1e300), all four GetExpectationValueD overloads and GetIntermediateState on every node, midpoint, node+-1ulp and a random point "
+             "per interval against the long-double Schroedinger-picture trace with convex weights, agreement with the node form at nodes, and 12 points outside the range (1 ulp, near, "
+             "far, 1e6 widths, +-inf, +-DBL_MAX, below and above) x 5 entry points which must throw; a second solver of another dimension is queried in between on the same thread.",
+        floors=dict(quick={"query.node_form": 1000, "query.interpolated": 10000, "query.outside_below": 5000, "query.outside_above": 5000, "query.node_agreement": 1000, "grid.log": 50, "grid.user-clustered": 50, "grid.linear": 50},
+                    thorough={"query.interpolated": 300000}),
+        assumptions=["cases whose phase resolution eps*W*|tau| exceeds 1e-3 are not judged on values (only on exceptions)"],
+    ),
+    "C10": dict(
+        harness="h_solver", sources=SOLVER, level="exploration",
+        variants=dict(quick=[V("asan", 8, 0.25), V("opt", 16)], thorough=[V("asan", 8, 0.15), V("opt", 16)]),
+        rule="random histories of 3-12 operations over {Evolve(dt) with dt=0, 1e-6..1e-2 or 0.05..0.8; toggle one of the five switches; Set_AnyNumerics; change stepper/adaptive flag/tolerances/h/"
+             "h_max/nsteps; move-construct (source destroyed at once); move-assign onto an empty or an already used solver; ini() with other sizes and start time}; two thirds on the commuting "
+             "family with constant rates and sources (exact per-segment map for any subset of terms, carried from segment to segment), one third on the manufactured non-commuting family "
+             "(sources stay on). Oracles: clock, composed exact maps, history-free twin per segment, bitwise freeze and PreDerive(t_new) without numerics, estate/state aliasing and "
+             "binding to the system array after every operation, clock/sizes after ini, nothing but Evolve moves state or clock. distinct_nontrivial = distinct histories.",
+        floors=dict(quick={"evolve.segments": 500, "evolve.zero_length": 50, "evolve.without_numerics": 50, "op.move_construct": 50, "op.move_assign_used": 20, "op.move_assign_empty": 20, "op.reinit": 50,
+                           "op.toggle": 100, "op.any_numerics": 20, "twin_comparisons": 400, "hook.rebind_skipped": 1000, "hook.realias": 400},
+                    thorough={"evolve.segments": 20000, "twin_comparisons": 15000}),
+        assumptions=["integration allowance per numeric segment 2e3*tol*(1+|y|) (fixed step: 2e-6, rk2 1e-5), accumulated over the history and multiplied by 4 for the bounded growth of the generated problems"],
     ),
 }
